@@ -261,23 +261,7 @@ def check_once(eng, run):
         run.ob("C04.once", fn.module.name.split(".")[-3] + "." + fn.short, ok)
 
 
-class _As:
-    """Report another property's rule functions under this property's rule id (same constructs, shared machinery)."""
-
-    def __init__(self, run, rule):
-        self._run, self._rule = run, rule
-
-    def finding(self, rule, *a, **k):
-        return self._run.finding(self._rule, *a, **k)
-
-    def ob(self, rule, *a, **k):
-        return self._run.ob(self._rule, *a, **k)
-
-    def floor(self, what, measured, minimum):
-        return self._run.floor(f"{self._rule}: {what}", measured, minimum)
-
-    def __getattr__(self, name):
-        return getattr(self._run, name)
+from sa.report import RuleAlias as _As  # noqa: E402
 
 
 def check_wait(eng, run):
